@@ -30,7 +30,7 @@ struct VmContext { _p: u8 }
 #[verifier::external_body]
 struct KString { _p: u8 }
 // KValue: only the variants the extracted bodies name, plus an opaque catch-all
-enum KValue { Null, Str(KString), Map(KMap), Other(Opaque) }
+enum KValue { Null, Bool(bool), Str(KString), Map(KMap), Other(Opaque) }
 enum ControlFlow { Continue, Return(KValue), Yield(KValue) }
 #[verifier::external_body]
 struct Instruction { _p: u8 }
@@ -488,6 +488,17 @@ VM_SPECS = r"""
     fn run_size(&mut self, a: u8, b: u8, t: bool) -> (r: Result<()>)
         requires old(self).wf(), ensures Self::op_post(old(self), final(self), r is Ok)
     { unimplemented!() }
+    // vm.rs new_frame_base: `u8::try_from(registers.len() - register_base)`, an error when the window is full
+    #[verifier::external_body]
+    fn new_frame_base(&self) -> (r: Result<u8>)
+        ensures (r is Ok) == self.window_fits_u8(), r matches Ok(b) ==> b as int == self.registers@.len() - self.register_base
+    { unimplemented!() }
+    // assumed (pushes instance and argument, then call_callable): a Koto function gets ONE frame above
+    // everything on the value stack, a native function or a generator runs at once and pushes none
+    #[verifier::external_body]
+    fn call_overridden_op_2(&mut self, result_register: Option<u8>, instance: KValue, arg: KValue, op: KValue) -> (r: Result<()>)
+        requires old(self).wf(), ensures Self::op_post(old(self), final(self), r is Ok)
+    { unimplemented!() }
     #[verifier::external_body]
     fn call_overridden_op_1(&mut self, a: Option<u8>, b: u8, op: KValue) -> (r: Result<()>)
         requires old(self).wf(), ensures Self::op_post(old(self), final(self), r is Ok)
@@ -881,6 +892,20 @@ UNIT = Unit(
         old(self).call_stack@.len() == old_frame_count ==> final(self).execution_state == old(self).execution_state,
         // C07/C04: an error inside the overridden operator leaves no half-built value behind
         r is Err && old(self).call_stack@.len() == old_frame_count + 1 ==> final(self).builders_not_grown(old(self)),   // @no_builder_left_behind_on_error
+"""),
+        Fn(F, "impl KotoVm :: fn run_overridden_comparison_op", props=("C07", "C04", "C17"), spec=r"""
+    requires
+        old(self).wf(),
+        old(self).call_stack@.len() > 0,                                      // an instruction runs in a frame
+        old(self).registers@.len() < 0x3000_0000_0000_0000,                   // memory bound (assumption)
+    ensures
+        // C07/C17: whatever the metakey holds - a Koto function (runs in a frame of its own, behind a
+        // barrier), a native function or a generator (no frame) - and however it ends, the frames of
+        // the caller are as they were and the temporary result register is gone
+        final(self).wf(),                                                                                       // @wf_on_every_exit
+        !(final(self).execution_state is Suspended) ==> Self::stack_equiv(final(self).call_stack@, old(self).call_stack@),   // @callers_frames_as_before
+        !(final(self).execution_state is Suspended) ==> final(self).register_base == old(self).register_base,   // @register_base_restored
+        !(final(self).execution_state is Suspended) ==> final(self).registers@.len() == old(self).registers@.len(),   // @no_register_left_behind
 """),
         Fn(F, "impl KotoVm :: fn run_binary_op", props=("C07",), spec=r"""
     requires
